@@ -601,6 +601,76 @@ func c18ExportedH(x *mc.Exec, colStep int) {
 			}
 		}
 	}
+	// lines whose samples cancel: +a and -a in one row, in one column, and an alternating row (a line that sums to zero
+	// is not a blank line)
+	type ent struct {
+		r, c int
+		a    float64
+	}
+	for k := 0; k < 6; k++ {
+		col := (row*5 + k*37) % size
+		col2 := (col + 1 + k*11) % size
+		row2 := (row + 1 + k*7) % size
+		var es []ent
+		switch k % 3 {
+		case 0:
+			es = []ent{{row, col, 1}, {row, col2, -1}}
+		case 1:
+			es = []ent{{row, col, 3}, {row2, col, -3}}
+		default:
+			for c := 0; c < size; c++ {
+				es = append(es, ent{row, c, float64(1 - 2*(c%2))})
+			}
+		}
+		if col == col2 || row == row2 {
+			continue
+		}
+		n++
+		got := make([]float64, low*low)
+		l1 := 0.0
+		for i := range f64 {
+			f64[i] = 0
+		}
+		for i := range f32 {
+			f32[i] = 0
+		}
+		for _, e := range es {
+			f64[e.r*size+e.c] += e.a
+			f32[e.r*size+e.c] += float32(e.a)
+			l1 += math.Abs(e.a)
+		}
+		switch which {
+		case 0:
+			r := transforms.DCT2DHash64(&f64)
+			copy(got, r[:])
+		case 1:
+			r := transforms.DCT2DHash256(&f64)
+			copy(got, r[:])
+		case 2:
+			r := transforms32.DCT2DHash256(&f32)
+			for i := range r {
+				got[i] = float64(r[i])
+			}
+		}
+		tol := 2e-12
+		if which == 2 {
+			tol = 2e-5
+		}
+		for v := 0; v < low; v++ {
+			for u := 0; u < low; u++ {
+				ref := 0.0
+				for _, e := range es {
+					ref += e.a * dctCoef(size, e.c, u) * dctCoef(size, e.r, v)
+				}
+				vv, uu, kk := v, u, k
+				if !c18Judge(fs, fs.prefix, got[low*v+u], ref, l1, tol, func() string {
+					return fmt.Sprintf("cancelling entries (pattern %d) in row %d, coefficient (v=%d,u=%d)", kk%3, row, vv, uu)
+				}) {
+					v, u = low, low
+				}
+			}
+		}
+	}
 	canaryCheck(fs, "exported", b64)
 	x.Bulk = n - 1
 	x.Outcome = fmt.Sprintf("exp%d", which)
@@ -839,7 +909,7 @@ func init() {
 				{Name: "dense-edge-vectors", H: c18Dense, NoLevels: true, SplitDepth: 1, Isolate: true,
 					Rule: "constant, alternating, ramp vectors for each menu value, every DCT basis vector at two amplitudes, 64 fixed LCG vectors over 13 decades; 4 kernels x 2 flush positions"},
 				{Name: "exported-2d", H: c18Exported(map[bool]int{true: 1, false: 8}[tier == "thorough"]), NoLevels: true, SplitDepth: 1, Isolate: true,
-					Rule: "transforms.DCT2DHash64/256 and transforms32.DCT2DHash256 on unit impulses (two amplitudes; 64x64: every position; 256x256: every position in thorough, every 8th column per row with a row-dependent phase in quick) vs the 2-D DCT-II low block"},
+					Rule: "transforms.DCT2DHash64/256 and transforms32.DCT2DHash256 on unit impulses (two amplitudes; 64x64: every position; 256x256: every position in thorough, every 8th column per row with a row-dependent phase in quick) and on lines whose samples cancel (+a / -a in one row, in one column, an alternating row) vs the 2-D DCT-II low block"},
 			}
 		},
 		Assumptions: []string{
